@@ -473,3 +473,293 @@ func inDefaultArm(c *Ctx, fn *FuncInfo, pos token.Pos) bool {
 	})
 	return in
 }
+
+func init() {
+	register(&Rule{ID: "R10.drain-complete", Props: []string{"C10"}, Floor: 4,
+		Text: "Hook.proc's contract with the manager ('true' means every queued entry was handled; the manager sleeps on the condition variable after 'true'): the scan of the queue never stops early (its callback returns the constant true on every path, or sets a flag that every 'return true' of proc is dominated by the negation of), the send loop ranges over the whole collected slice and leaves it only by return, and in the manager the wait is reached only after proc returned true and the signal counter is unchanged",
+		Run:  ruleDrainComplete})
+}
+
+func ruleDrainComplete(c *Ctx) {
+	fn := c.Func("internal/server", "Hook", "proc")
+	mg := c.Func("internal/server", "Hook", "manager")
+	if fn == nil || mg == nil {
+		c.und("anchors", 0, "Hook.proc / Hook.manager not found")
+		return
+	}
+	info := fn.Info()
+	fg := newFlowGraph(info, fn.Decl.Body)
+	// the queue scans: buntdb.Tx.Ascend*/Descend* with a callback literal
+	type scan struct {
+		call *ast.CallExpr
+		lit  *ast.FuncLit
+	}
+	var scans []scan
+	ast.Inspect(fn.Decl.Body, func(n ast.Node) bool {
+		call, ok := n.(*ast.CallExpr)
+		if !ok {
+			return true
+		}
+		f := callee(info, call)
+		if f == nil || f.Pkg() == nil || f.Pkg().Path() != "github.com/tidwall/buntdb" {
+			return true
+		}
+		if !(len(f.Name()) >= 6 && (f.Name()[:6] == "Ascend" || (len(f.Name()) >= 7 && f.Name()[:7] == "Descend"))) {
+			return true
+		}
+		if len(call.Args) > 0 {
+			if lit, ok := ast.Unparen(call.Args[len(call.Args)-1]).(*ast.FuncLit); ok {
+				scans = append(scans, scan{call, lit})
+			}
+		}
+		return true
+	})
+	if len(scans) == 0 {
+		c.und("scan", fn.Decl.Pos(), "no queue scan (buntdb Ascend*/Descend* with a callback literal) found in Hook.proc")
+		return
+	}
+	// the collected slice: the slice appended to inside the callback that the send loop ranges over
+	var collected types.Object
+	for i, sc := range scans {
+		key := fmt.Sprintf("scan%d-exhaustive", i+1)
+		lfg := newFlowGraph(info, sc.lit.Body)
+		var early []ast.Node
+		flags := map[types.Object]bool{}
+		for _, r := range lfg.Returns() {
+			rs := r.Node.(*ast.ReturnStmt)
+			if len(rs.Results) == 1 && boolConst(info, rs.Results[0]) == '1' {
+				continue
+			}
+			// accepted idiom: a flag of the enclosing function is set to true in the statement before the return
+			var flag types.Object
+			if r.Idx > 0 {
+				if as, ok := r.Block.Nodes[r.Idx-1].(*ast.AssignStmt); ok && len(as.Lhs) == 1 && len(as.Rhs) == 1 && boolConst(info, as.Rhs[0]) == '1' {
+					if id, ok := as.Lhs[0].(*ast.Ident); ok {
+						flag = info.ObjectOf(id)
+					}
+				}
+			}
+			if flag != nil && len(rs.Results) == 1 && boolConst(info, rs.Results[0]) == '0' {
+				flags[flag] = true
+				continue
+			}
+			early = append(early, rs)
+		}
+		ast.Inspect(sc.lit.Body, func(n ast.Node) bool {
+			if as, ok := n.(*ast.AssignStmt); ok && len(as.Lhs) == 1 && len(as.Rhs) == 1 {
+				if call, ok := ast.Unparen(as.Rhs[0]).(*ast.CallExpr); ok {
+					if id, ok := ast.Unparen(call.Fun).(*ast.Ident); ok && id.Name == "append" && len(call.Args) >= 1 {
+						if l, ok := as.Lhs[0].(*ast.Ident); ok && collected == nil {
+							collected = info.ObjectOf(l)
+						}
+					}
+				}
+			}
+			return true
+		})
+		if len(early) > 0 {
+			c.bad(key, early[0].Pos(), "the queue scan can stop early (a return other than the constant true, without a 'more' flag): proc collects only part of the queue, returns true after sending it, and the manager sleeps with notifications still queued")
+			continue
+		}
+		if len(flags) > 0 {
+			// every `return true` of proc is dominated by !flag
+			okAll := true
+			var at token.Pos
+			for _, r := range fg.Returns() {
+				rs := r.Node.(*ast.ReturnStmt)
+				if len(rs.Results) != 1 || boolConst(info, rs.Results[0]) != '1' {
+					continue
+				}
+				for fl := range flags {
+					dom := false
+					for _, f := range fg.DominatingFacts(r) {
+						if id, ok := ast.Unparen(f.E).(*ast.Ident); ok && info.ObjectOf(id) == fl && f.Neg {
+							dom = true
+						}
+					}
+					if !dom {
+						okAll = false
+						at = rs.Pos()
+					}
+				}
+			}
+			c.check(okAll, key, sc.call.Pos(), "the scan may stop early only with a flag set, and every 'return true' of proc is dominated by the flag being false", "the scan may stop early with a flag set, but a 'return true' of proc at "+c.posStr(at)+" is reachable with the flag set")
+			continue
+		}
+		c.ok(key, sc.call.Pos(), true, "the scan callback returns the constant true on every path (%d returns)", len(lfg.Returns()))
+	}
+	// the send loop: a range over the collected slice (not a sub-slice) that contains the Send call; left only by return
+	var sendLoop *ast.RangeStmt
+	ast.Inspect(fn.Decl.Body, func(n ast.Node) bool {
+		rs, ok := n.(*ast.RangeStmt)
+		if !ok || sendLoop != nil {
+			return true
+		}
+		hasSend := false
+		ast.Inspect(rs.Body, func(m ast.Node) bool {
+			if call, ok := m.(*ast.CallExpr); ok {
+				if f := callee(info, call); f != nil && f.Name() == "Send" && isMethod(f, "github.com/tidwall/tile38/internal/endpoint", "Manager", "Send") {
+					hasSend = true
+				}
+			}
+			return true
+		})
+		if hasSend {
+			if _, inner := ast.Unparen(rs.X).(*ast.SelectorExpr); !inner { // skip `range h.Endpoints`
+				sendLoop = rs
+			}
+		}
+		return true
+	})
+	if sendLoop == nil {
+		c.und("send-loop", fn.Decl.Pos(), "the loop that sends the collected entries was not found")
+	} else {
+		id, ok := ast.Unparen(sendLoop.X).(*ast.Ident)
+		c.check(ok && collected != nil && info.ObjectOf(id) == collected, "send-loop-whole-slice", sendLoop.Pos(),
+			"the send loop ranges over the whole slice the scan collected", "the send loop does not range over the whole slice the scan collected ("+exprStr(sendLoop.X)+"): collected entries were deleted from the queue but are never sent")
+		// no break/goto out of the send loop at its own level (a `break` inside the inner endpoint loop is fine)
+		leaves := false
+		var walk func(n ast.Node, depth int)
+		walk = func(n ast.Node, depth int) {
+			ast.Inspect(n, func(m ast.Node) bool {
+				switch x := m.(type) {
+				case *ast.FuncLit:
+					return false
+				case *ast.ForStmt:
+					if m != n {
+						walk(x.Body, depth+1)
+						return false
+					}
+				case *ast.RangeStmt:
+					if m != n {
+						walk(x.Body, depth+1)
+						return false
+					}
+				case *ast.SwitchStmt, *ast.TypeSwitchStmt, *ast.SelectStmt:
+					if m != n {
+						// a break inside binds to the switch; labelled breaks are handled below
+						return true
+					}
+				case *ast.BranchStmt:
+					if x.Tok == token.GOTO || (x.Label != nil && x.Tok == token.BREAK) || (x.Tok == token.BREAK && depth == 0 && !insideSwitch(sendLoop.Body, x)) {
+						leaves = true
+					}
+				}
+				return true
+			})
+		}
+		walk(sendLoop.Body, 0)
+		c.check(!leaves, "send-loop-no-break", sendLoop.Pos(), "the send loop is left only by return (failure) or exhaustion", "the send loop can be left by break/goto: entries already removed from the queue are neither sent nor re-inserted, and proc returns true")
+	}
+	// manager: cond.Wait() is dominated by proc()==true (the !proc edge continues) and by sig == h.sig
+	minfo := mg.Info()
+	mfg := newFlowGraph(minfo, mg.Decl.Body)
+	waits := mfg.FindCalls(func(f *types.Func, call *ast.CallExpr) bool {
+		return f != nil && f.Name() == "Wait" && f.Pkg() != nil && f.Pkg().Path() == "sync"
+	})
+	if len(waits) == 0 {
+		c.und("manager-wait", mg.Decl.Pos(), "no cond.Wait in Hook.manager")
+		return
+	}
+	for _, w := range waits {
+		procTrue, sigSame := false, false
+		for _, f := range mfg.DominatingFacts(w) {
+			e := ast.Unparen(f.E)
+			// !func() bool {... return h.proc()}()  false edge, or h.proc() true edge
+			if f.Neg {
+				if u, ok := e.(*ast.UnaryExpr); ok && u.Op == token.NOT {
+					e = ast.Unparen(u.X)
+					if callsProc(minfo, e, fn.Obj) {
+						procTrue = true
+					}
+				}
+				if be, ok := e.(*ast.BinaryExpr); ok && be.Op == token.NEQ && mentionsFieldNamed(minfo, be, "sig") {
+					sigSame = true
+				}
+			} else {
+				if callsProc(minfo, e, fn.Obj) {
+					procTrue = true
+				}
+				if be, ok := e.(*ast.BinaryExpr); ok && be.Op == token.EQL && mentionsFieldNamed(minfo, be, "sig") {
+					sigSame = true
+				}
+			}
+		}
+		c.check(procTrue, "manager-wait-after-drain", w.Node.Pos(), "the wait is dominated by proc() having returned true", "the manager can wait on the condition variable without proc() having reported the queue drained")
+		c.check(sigSame, "manager-wait-no-missed-signal", w.Node.Pos(), "the wait is dominated by the signal counter being unchanged since before proc()", "the manager can wait although a signal arrived while proc() was running: that notification stays queued until the next one")
+	}
+}
+
+func insideSwitch(root ast.Node, target ast.Node) bool {
+	in := false
+	var rec func(n ast.Node, sw bool)
+	rec = func(n ast.Node, sw bool) {
+		ast.Inspect(n, func(m ast.Node) bool {
+			if m == target {
+				in = sw
+				return false
+			}
+			switch x := m.(type) {
+			case *ast.SwitchStmt:
+				if m != n {
+					rec(x.Body, true)
+					return false
+				}
+			case *ast.TypeSwitchStmt:
+				if m != n {
+					rec(x.Body, true)
+					return false
+				}
+			case *ast.SelectStmt:
+				if m != n {
+					rec(x.Body, true)
+					return false
+				}
+			}
+			return true
+		})
+	}
+	rec(root, false)
+	return in
+}
+
+// callsProc: e is (or is an immediately invoked literal whose every return is) a call of Hook.proc.
+func callsProc(info *types.Info, e ast.Expr, proc *types.Func) bool {
+	call, ok := ast.Unparen(e).(*ast.CallExpr)
+	if !ok {
+		return false
+	}
+	if f := callee(info, call); f == proc {
+		return true
+	}
+	if lit, ok := ast.Unparen(call.Fun).(*ast.FuncLit); ok {
+		all, n := true, 0
+		ast.Inspect(lit.Body, func(m ast.Node) bool {
+			if _, ok := m.(*ast.FuncLit); ok && m != lit {
+				return false
+			}
+			if r, ok := m.(*ast.ReturnStmt); ok {
+				n++
+				if len(r.Results) != 1 || !callsProc(info, r.Results[0], proc) {
+					all = false
+				}
+			}
+			return true
+		})
+		return all && n > 0
+	}
+	return false
+}
+
+func mentionsFieldNamed(info *types.Info, e ast.Expr, name string) bool {
+	hit := false
+	ast.Inspect(e, func(n ast.Node) bool {
+		if se, ok := n.(*ast.SelectorExpr); ok && se.Sel.Name == name {
+			if _, ok := info.ObjectOf(se.Sel).(*types.Var); ok {
+				hit = true
+			}
+		}
+		return true
+	})
+	return hit
+}
